@@ -75,10 +75,28 @@ pub fn cells(tier: Tier) -> Vec<CellPlan> {
         EvOp::EmitC(1, CK::C3, None),
         EvOp::EmitC(0, CK::CT, None),
         EvOp::Disconnect(1),
+        EvOp::LateDisconnect(1),
         EvOp::Connect(1),
     ];
     c.rounds = if q { 3 } else { 4 };
     v.push(plan(c, if q { 1 } else { 2 }, 2.0));
+
+    // Update channel two rounds behind: events of several ticks pile up in the client-side queue
+    // and are released together with newer ones.
+    let mut c = base("order-lag2", 1, vec![0]);
+    c.init = vec![Op::Spawn(0, 1 << TA)];
+    c.alphabet = vec![
+        EvOp::Nop,
+        EvOp::World(Op::Ins(0, TB)),
+        EvOp::World(Op::Rm(0, TB)),
+        EvOp::EmitS(SK::E1, Mode::Broadcast, None),
+        EvOp::EmitS(SK::T1, Mode::Broadcast, None),
+    ];
+    c.env = EvEnv { hold_updates: 0, hold_events: false, reorder: false, drop_unreliable: false, hold_client_events: false, hold_mutations: false, hold_acks: false, update_latency: 2 };
+    c.tick_choice = false;
+    c.rounds = if q { 6 } else { 7 };
+    c.closure_rounds = 6;
+    v.push(plan(c, 0, 2.0));
 
     // Entity references in both directions.
     let mut c = base("mapped", 2, vec![0, 1]);
